@@ -506,8 +506,6 @@ func (s *Scratch) ParallelGenerate(units []*Unit) {
 }
 
 func (s *Scratch) generateNoAppend(u *Unit) {
-	n := len(s.Units)
-	_ = n
 	tmp := &Scratch{Dir: s.Dir}
 	tmp.Generate(u)
 }
